@@ -33,19 +33,21 @@ async def one(cfg):
             ev.append(('set_result_end',))
         async def is_result_ready(self, task_id): return False
         async def get_result(self, task_id, with_logs=False): raise KeyError(task_id)
+    def boom(kind, i):          # fault injection: the last middleware's hook of that kind raises
+        if cfg.get('hook_fails') == kind and i == 2: ev.append((kind + '_fail', i)); raise RuntimeError(f"injected fault in {kind} hook")
     def mk_mw(i, is_async):
         if is_async:
             class MW(TaskiqMiddleware):
-                async def pre_execute(self, message): ev.append(('pre_execute', i, message.task_id)); return message
-                async def on_error(self, message, result, exception): ev.append(('on_error', i, type(exception).__name__))
-                async def post_execute(self, message, result): ev.append(('post_execute', i))
-                async def post_save(self, message, result): ev.append(('post_save', i))
+                async def pre_execute(self, message): ev.append(('pre_execute', i, message.task_id)); boom('pre_execute', i); return message
+                async def on_error(self, message, result, exception): ev.append(('on_error', i, type(exception).__name__)); boom('on_error', i)
+                async def post_execute(self, message, result): ev.append(('post_execute', i)); boom('post_execute', i)
+                async def post_save(self, message, result): ev.append(('post_save', i)); boom('post_save', i)
         else:
             class MW(TaskiqMiddleware):
-                def pre_execute(self, message): ev.append(('pre_execute', i, message.task_id)); return message
-                def on_error(self, message, result, exception): ev.append(('on_error', i, type(exception).__name__))
-                def post_execute(self, message, result): ev.append(('post_execute', i))
-                def post_save(self, message, result): ev.append(('post_save', i))
+                def pre_execute(self, message): ev.append(('pre_execute', i, message.task_id)); boom('pre_execute', i); return message
+                def on_error(self, message, result, exception): ev.append(('on_error', i, type(exception).__name__)); boom('on_error', i)
+                def post_execute(self, message, result): ev.append(('post_execute', i)); boom('post_execute', i)
+                def post_save(self, message, result): ev.append(('post_save', i)); boom('post_save', i)
         return MW()
     class Plain(TaskiqMiddleware): pass
     b = InMemoryBroker().with_result_backend(RB())
@@ -209,6 +211,29 @@ def monitor(cfg, ev, raised):
     if ts and (ts[0][1] != 41 or ts[0][2] != 'id-1'): f.append(f"C08/C06: task received {ts[0][1:]}")
     return f
 
+def safety_monitor(cfg, ev, raised):
+    """fault runs (a middleware hook raises): only the clauses that must hold on EVERY trace, whatever fails"""
+    f = []; names = [e[0] for e in ev]; oc = cfg['outcome']
+    def first(n): return names.index(n) if n in names else None
+    acks = names.count('ack'); a = first('ack'); hk = cfg['hook_fails']
+    if acks > 1: f.append(f"C02: ack called {acks} times (a {hk} hook raised)")
+    if names.count('task_start') > 1: f.append(f"C01: task function invoked {names.count('task_start')} times (a {hk} hook raised)")
+    if a is not None:
+        if cfg['ack_time'] == 0 and first('task_start') is not None and a > first('task_start'): f.append(f"C02: when_received ack after the task function started (a {hk} hook raised)")
+        if cfg['ack_time'] == 1 and (first('task_end') is None or a < first('task_end')): f.append(f"C02: when_executed ack before the task function finished (a {hk} hook raised)")
+        if cfg['ack_time'] == 2:
+            done = first('set_result_end') if first('set_result_end') is not None else first('set_result_fail')
+            skipped_ok = oc == 'noresult' and hk not in ('post_execute', 'pre_execute')
+            if not skipped_ok and (done is None or a < done): f.append(f"C02: when_saved ack although no attempt to store the result has completed (a {hk} hook raised; outcome {oc})")
+    saves = names.count('set_result_start')
+    if saves > 1 or (saves and oc == 'noresult'): f.append(f"C07: {saves} results stored for outcome {oc} (a {hk} hook raised)")
+    if saves and first('task_end') is None: f.append(f"C07: a result was stored although the task function never finished (a {hk} hook raised)")
+    for i, n_ in enumerate(names):
+        if n_ == 'post_save' and (first('set_result_end') is None or first('set_result_end') > i): f.append(f"C10: post_save fired although the result was not stored (a {hk} hook raised)"); break
+    if hk == 'pre_execute' and first('task_start') is not None: f.append("C10: the task function ran although a pre_execute hook raised")
+    if names.count('dep_open') != names.count('dep_close'): f.append(f"C12: dependency opened {names.count('dep_open')} closed {names.count('dep_close')} (a {hk} hook raised)")
+    return f
+
 def run(sc):
     fails = []; n = 0
     acks = [sc['ack_time']] if isinstance(sc.get('ack_time'), int) and 0 <= sc['ack_time'] <= 2 else [0, 1, 2]
@@ -225,6 +250,15 @@ def run(sc):
                                 ev, raised = asyncio.run(one(cfg)); n += 1
                                 fl = monitor(cfg, ev, raised)
                                 if fl: fails.append({'key': json.dumps(cfg, sort_keys=True), 'config': cfg, 'failed_clauses': fl, 'trace': [list(map(str, e)) for e in ev]})
+    for ack_time in acks:          # fault runs: one middleware hook raises
+        for ack_async in ([sc['ack_async']] if isinstance(sc.get('ack_async'), bool) else [False, True]):
+            for outcome in ('return', 'raise', 'noresult'):
+                for hk in ('pre_execute', 'on_error', 'post_execute', 'post_save'):
+                    if hk == 'on_error' and outcome == 'return': continue
+                    cfg = dict(ack_time=ack_time, ackable=True, ack_async=ack_async, outcome=outcome, backend_fails=False, async_target=True, propagate=True, hook_fails=hk)
+                    ev, raised = asyncio.run(one(cfg)); n += 1
+                    fl = safety_monitor(cfg, ev, raised)
+                    if fl: fails.append({'key': json.dumps(cfg, sort_keys=True), 'config': cfg, 'failed_clauses': fl, 'trace': [list(map(str, e)) for e in ev]})
     for shape in ('uncached', 'cached', 'async_uncached', 'generator_uncached', 'nested_uncached', 'override', 'ctx_only_nested'):
         bad, seen = asyncio.run(isolation(shape)); n += 1
         if bad or len(seen) != 2: fails.append({'key': 'isolation:' + shape, 'config': {'overlapping_messages': ['A', 'B'], 'dependency': shape},
